@@ -40,7 +40,7 @@ CONF = {
                 quick=[("memo", {"memo_variants": True, "grammar_scale": 0.4, "long_inputs": True}, 1.0), ("userfn", {"memo_variants": True, "grammar_scale": 0.2}, 1.0), ("memofam", {"memo_variants": True}, 1.0)],
                 thorough=[("memo", {"memo_variants": True, "grammar_scale": 0.4, "long_inputs": True}, 1.0), ("userfn", {"memo_variants": True, "grammar_scale": 0.15}, 1.0), ("memofam", {"memo_variants": True}, 1.0)]),
     "C06": dict(kinds={"memo_bound"},
-                quick=[("memofail", {}, 1.0), MIX], thorough=[("memofail", {}, 1.0), ("memo", {}, 0.5), MIXT]),
+                quick=[("memofail", {}, 1.0), ("leftrec", {}, 0.4), MIX], thorough=[("memofail", {}, 1.0), ("memo", {}, 0.5), ("leftrec", {}, 0.5), MIXT]),
     "C07": dict(kinds={"accept", "consumed", "tree", "position", "fn"} | COMMON_DEATH,
                 quick=[("leftrec", {}, 1.0), MIX, SUITE], thorough=[("leftrec", {}, 1.0), ("position", {}, 0.3), MIXT, SUITE]),
     "C08": dict(kinds={"accept", "consumed", "tree", "fn", "position"},
